@@ -403,8 +403,20 @@ func Main(t *testing.T, c *Check) {
 			byClass[out.Viol.Class] = fv
 			res.Violations = append(res.Violations, fv)
 			if !known[out.Viol.Class] {
-				rf := c.minimise(t, out, tier, seed, uint64(i))
 				name := fmt.Sprintf("%s/%s-%d-%d.json", replayDir, c.Name, seed, i)
+				// The violation is on disk, with the tape as recorded, before anything else runs:
+				// minimising re-executes candidates in this process, and code under test that
+				// keeps state across executions (a package-level cache, say) can take the
+				// process down there. The driver then still reports *this* violation.
+				_ = writeJSON(name, &ReplayFile{Property: c.ID, Check: c.Name, Tier: tier, Seed: seed, Run: uint64(i),
+					NCPU: runtime.NumCPU(), Tape: out.Tape, Class: out.Viol.Class, Detail: out.Viol.Detail,
+					Hash: fmt.Sprintf("%x", out.Hash), OrigLen: len(out.Tape)})
+				if outPath != "" {
+					mark, _ := json.Marshal(map[string]any{"property": c.ID, "check": c.Name, "tier": tier, "seed": seed, "run": i,
+						"ncpu": runtime.NumCPU(), "found_class": out.Viol.Class, "found_detail": out.Viol.Detail, "found_replay": name})
+					_ = os.WriteFile(inflight, mark, 0o644)
+				}
+				rf := c.minimise(t, out, tier, seed, uint64(i))
 				if err := writeJSON(name, rf); err != nil {
 					res.Infra = append(res.Infra, "write replay: "+err.Error())
 				}
